@@ -114,6 +114,22 @@ theorem ainv_normalized_parent (q : Text) (hp : PathText (cSlash :: q)) :
   · exact ⟨0, by rw [h]; rfl⟩
   · exact ⟨1, by rw [h]; rfl⟩
 
+/-- the same for a handle that follows no authority -/
+theorem ainv_normalized_parent_fa (fa : Bool) (q : Text) (hp : PathText (cSlash :: q)) :
+    AInv (normView fa false (Path.parent_or_empty (cSlash :: q)))
+      (nsegsOf true (segs (cSlash :: q)).dropLast) := by
+  obtain ⟨⟨k, hk⟩, habs, hpt⟩ := parent_segs q
+  have hpp := hpt hp
+  obtain ⟨hr, ha⟩ := normView_realises fa false _ hpp
+  have hn : nsegs (Path.parent_or_empty (cSlash :: q)) = nsegsOf true (segs (cSlash :: q)).dropLast := by
+    unfold nsegs
+    rw [habs, hk, nsegsOf_dots]
+  rw [hn] at hr
+  refine ⟨by rw [ha, habs], pathText_normView _ _ _ hpp, nsegsOf_abs_dotFree _, ?_⟩
+  rcases realises_cases hr with h | h
+  · exact ⟨0, by rw [h]; rfl⟩
+  · exact ⟨1, by rw [h]; rfl⟩
+
 /-- … and so does the handle on `/` (base path empty behind an authority) -/
 theorem ainv_root : AInv [cSlash] [] :=
   ⟨rfl, pathText_lit_slash, ⟨by simp, by simp⟩, ⟨0, by rw [segs_root]; rfl⟩⟩
